@@ -179,6 +179,18 @@ def _same(a, b):
         return False
 
 
+from ..flow import ENTRY as ENTRY_C10
+
+
+def _within_c10(node, container):
+    n = node
+    while n is not None:
+        if n is container:
+            return True
+        n = getattr(n, "_parent", None)
+    return False
+
+
 def run(pm, ctx):
     ctx.rule("C10-a", "batches must be disjoint, cover every sample once and hold at most batch_size rows", floor=3)
     ctx.rule("C10-b", "the affinity block must be the rows and columns of the batch's own samples, in the same order", floor=4)
@@ -531,6 +543,40 @@ def run(pm, ctx):
         else:
             ctx.violation("C10-f", su.relpath, "compute_val_score", norm_src(ca[0]), "the computed affinity is not that of the block's rows", line=ca[0].lineno,
                           site="compute_val_score: computed affinity")
+        # the affinity scored with the block's predictions is, on every path, either the user's block or the result of compute_affinity on
+        # the block evaluated in this very iteration (a value fetched from a store filled by an earlier call is the affinity of another
+        # selection of variables in dynamic mode)
+        try:
+            cfg_v = CFG(vf)
+            rdv = cfg_v.reaching()
+            uses = [st for st in cfg_v.nodes if isinstance(st, (ast.Assign, ast.AugAssign, ast.Expr)) and _within_c10(st, w) and any(
+                isinstance(n, ast.Call) and isinstance(n.func, ast.Name) and n.func.id == "gemini_objective" for n in ast.walk(st))]
+            site_a = "compute_val_score: provenance of the scored affinity"
+            if not uses:
+                ctx.unrecognised("C10-f", site_a, "no call gemini_objective(y_pred, affinity) in the loop")
+            else:
+                call_ = next(n for n in ast.walk(uses[0]) if isinstance(n, ast.Call) and isinstance(n.func, ast.Name) and n.func.id == "gemini_objective")
+                aff = call_.args[1] if len(call_.args) > 1 else None
+                bad_defs = []
+                if isinstance(aff, ast.Name):
+                    for d in rdv.get(uses[0], {}).get(aff.id, frozenset()):
+                        v_ = d.value if isinstance(d, ast.Assign) else None
+                        okd = v_ is not None and _within_c10(d, w) and (
+                            (isinstance(v_, ast.Call) and (call_name(v_) or "").endswith(".compute_affinity")) or
+                            (isinstance(v_, ast.Subscript) and norm_src(v_).startswith("y[")))
+                        if not okd:
+                            bad_defs.append(d)
+                if aff is None:
+                    ctx.unrecognised("C10-f", site_a, "affinity argument not found")
+                elif bad_defs:
+                    d = bad_defs[0]
+                    ctx.violation("C10-f", su.relpath, "compute_val_score", norm_src(d)[:160] if d is not ENTRY_C10 else "affinity",
+                                  "the affinity scored with the block is not computed from the block in this iteration (nor the user's block): it is read from "
+                                  "a value kept from an earlier evaluation", line=getattr(d, "lineno", vf.lineno), site=site_a)
+                else:
+                    ctx.ok("C10-f", site_a, "computed on the block in the same iteration, or the user's block")
+        except AnalysisError:
+            raise
     # _path passes the model's batch size (or len(X))
     pf = su.func("_path")
     psrc = [norm_src(s) for s in ast.walk(pf) if isinstance(s, ast.stmt)]
